@@ -2629,6 +2629,10 @@ class FileSet:
                 # later.
                 v = v.replace("{", "{{").replace("}", "}}")
 
+                # Keep the repeated pattern together (it may be a list of
+                # alternatives like a|b):
+                v = "(?:" + v + ")"
+
                 changed_part = path[split_index:].replace("{" + p + "}", v)
                 path = path[:split_index] + changed_part
         try:
